@@ -281,8 +281,12 @@ where
     let all_steps = {
         let mut wrapped = all_steps.peekable();
         // Manually check the first point to make sure we're not calling
-        // zip on an empty iterator.
-        assert_eq!(brute_force_steps.peek(), wrapped.peek());
+        // zip on an empty iterator. If there are no steps at all (nothing
+        // ever arrives), the brute-force enumeration would never terminate,
+        // so it must not be consulted in that case.
+        if wrapped.peek().is_some() {
+            assert_eq!(brute_force_steps.peek(), wrapped.peek());
+        }
         wrapped.zip(brute_force_steps).map(|(a, bf)| {
             assert_eq!(a, bf);
             a
